@@ -50,8 +50,10 @@ def dependent_variables(cx):
     def pass_inv(st, seq, upto, full_init):
         dep = st['dependent_vars'].t; s0 = start[0]
         unchanged = same(dep, s0)
-        parts = [uses_param_closed(dep, init.t, nI), uses_param_closed(dep, body.t, nB), sup(dep, s0), st['old_dep_size'].t == z3.Length(s0),
-                 z3.Implies(unchanged, dep_closed(dep, seq, upto))]
+        parts = [uses_param_closed(dep, init.t, nI), uses_param_closed(dep, body.t, nB), sup(dep, s0), z3.Implies(unchanged, dep_closed(dep, seq, upto))]
+        # the code's own record of the size at the start of the pass (whatever it is called: the first int local assigned in the while body)
+        for nm in ('old_dep_size',):
+            if nm in st.vars: parts.append(st[nm].t == z3.Length(s0))
         if full_init: parts.append(z3.Implies(unchanged, dep_closed(dep, init.t, nI)))
         # lemma L-card (assumed where the invariant is assumed): a superset of a set with the same number of elements is the same set
         return dict(prove=z3.And(*parts), assume=z3.Implies(z3.Length(dep) == z3.Length(s0), unchanged))
